@@ -35,14 +35,29 @@ const (
 	exitHang  = 67 // the child's watchdog fired
 	exitRace  = 66 // GORACE exitcode
 
-	callLimit  = 30 * time.Second  // every API call
-	caseLimit  = 120 * time.Second // all scripts of a case
 	softCalls  = 2000              // per goroutine and case: beyond this the goroutine slows down (the engine never prunes its immutable list)
 	maxCalls   = 8000              // per goroutine and case: hard bound of the work
 	auxKeys    = 40
 	auxReaders = 3
 	sleepCapUs = 1_500_000 // total time the yield plan may sleep in one case
 )
+
+// Time bounds of the watchdog: at least 1000x the normal latency of a call
+// (tens of microseconds to a few milliseconds under the race detector) and
+// ~100x the normal duration of a case. VERIF_C07_LIMITS="call,case,grace"
+// (seconds) exists only to test the watchdog paths themselves.
+var (
+	callLimit   = 30 * time.Second  // every API call
+	caseLimit   = 120 * time.Second // all scripts of a case
+	parentGrace = 45 * time.Second  // parent: beyond callLimit+caseLimit before it sends SIGQUIT itself
+)
+
+func init() {
+	var a, b, c int
+	if n, _ := fmt.Sscanf(os.Getenv("VERIF_C07_LIMITS"), "%d,%d,%d", &a, &b, &c); n == 3 {
+		callLimit, caseLimit, parentGrace = time.Duration(a)*time.Second, time.Duration(b)*time.Second, time.Duration(c)*time.Second
+	}
+}
 
 // ChildSpec is what the parent writes for the child.
 type ChildSpec struct {
